@@ -123,6 +123,18 @@ theorem BlkRel.len {F : BFile} {c : RBlk} {b : BBlock} (h : BlkRel F c b) (hd : 
     simp only [RBlk.len, k.1, if_true, k.2.2.2.1, nat8_length, h.pos, Hts.Model.Bgzf.Block.len]
   · exact absurd k.2.1 hd
 
+theorem txOffset_small (c : RBlk) (h : c.data.length < 65536) : c.txOffset = (c.offFile, c.offBlock) := by
+  have hl : ¬ (65535 < c.data.length) := by omega
+  simp [RBlk.txOffset, hl]
+
+/-- blocks of C02's well-formed files hold fewer than 65536 bytes: the reported position is the plain offset -/
+theorem BlkRel.txOffset {F : BFile} {c : RBlk} {b : BBlock} (h : BlkRel F c b) :
+    c.txOffset = (c.offFile, c.offBlock) := by
+  rcases h.kind with k | k
+  · have hl : ¬ (65535 < c.data.length) := by rw [k.2.2.2.1, nat8_length]; have := k.2.2.2.2.2.1; omega
+    simp [RBlk.txOffset, hl]
+  · simp [RBlk.txOffset, k.1]
+
 /-- make the member at `off` current: `Block.load` of C02 against `fetch` of C03 without a cache -/
 theorem fetch_sim {cfg : Cfg} (hcfg : cfg.failReset = true) (o : CacheOps σ) {F : BFile} (hwf : WF F)
     {C : Reader σ} {B : BReader} (c : Core F C B) (off : Nat) :
@@ -338,7 +350,7 @@ theorem Core.fin {F : BFile} {C : Reader σ} {B : BReader} (c : Core F C B) (x :
     Core F { C with err := x, chunkEnd := curOffset C } ({ B with err := y }.setEnd) := by
   obtain ⟨id, hid, hb⟩ := c.cur
   refine ⟨c.file, c.cache, c.lent, ⟨id, hid, hb⟩, c.blocked, c.cb, ?_⟩
-  simp only [curOffset, hid, RBlk.txOffset, hb.offFile, hb.offBlock, Hts.Model.Bgzf.Reader.setEnd]
+  simp only [curOffset, hid, hb.txOffset, hb.offFile, hb.offBlock, Hts.Model.Bgzf.Reader.setEnd]
 
 theorem readLoop_sim {cfg : Cfg} (hcfg : cfg.failReset = true) (o : CacheOps σ) {F : BFile} (hwf : WF F) :
     ∀ (n : Nat) (C : Reader σ) (B : BReader) (want : Nat) (acc : List Nat), Core F C B → C.err = .none →
@@ -464,7 +476,7 @@ theorem Core.begin {F : BFile} {C : Reader σ} {B : BReader} (c : Core F C B) :
       ({ B with lastChunk := ⟨B.cur.tx, B.lastChunk.fin⟩ } : BReader) := by
   obtain ⟨id, hid, hb⟩ := c.cur
   refine ⟨c.file, c.cache, c.lent, ⟨id, hid, hb⟩, c.blocked, ?_, c.ce⟩
-  simp only [curOffset, hid, RBlk.txOffset, hb.offFile, hb.offBlock]
+  simp only [curOffset, hid, hb.txOffset, hb.offFile, hb.offBlock]
 
 theorem clsB_of_ErrRel {x : Err} {y : Option BErr} (h : ErrRel x y) : x.cls = clsB y := by
   rcases h with ⟨h1, h2⟩ | ⟨h1, h2⟩ <;> subst h1 h2 <;> rfl
@@ -546,7 +558,7 @@ theorem read_sim {cfg : Cfg} (hcfg : cfg.failReset = true) (o : CacheOps σ) {F 
 /-- the state `byteFin` leaves -/
 def byteStep (C : Reader σ) (id : Nat) : Reader σ :=
   { C.setB id { C.heap id with pos := (C.heap id).pos + 1, offBlock := ((C.heap id).offBlock + 1) % 65536, used := true } with
-    chunkBegin := (C.heap id).txOffset, chunkEnd := ((C.heap id).offFile, ((C.heap id).offBlock + 1) % 65536) }
+    chunkBegin := (C.heap id).txOffset, chunkEnd := ({ C.heap id with pos := (C.heap id).pos + 1, offBlock := ((C.heap id).offBlock + 1) % 65536, used := true } : RBlk).txOffset }
 
 /-- `ReadByte()` -/
 theorem readByte_sim {cfg : Cfg} (hcfg : cfg.failReset = true) (o : CacheOps σ) {F : BFile} (hwf : WF F)
@@ -620,8 +632,11 @@ theorem readByte_sim {cfg : Cfg} (hcfg : cfg.failReset = true) (o : CacheOps σ)
             simp [byteStep, Reader.setB, Hts.Model.Bgzf.Reader.setEnd, hb.base, hb.offFile, hb.offBlock, hb.pos,
               ktx, hmod', khd, khs, kdata]
           omega
-        · simp [byteStep, Reader.setB, Hts.Model.Bgzf.Reader.setEnd, RBlk.txOffset, hb.offFile, hb.offBlock]
-        · simp [byteStep, Reader.setB, Hts.Model.Bgzf.Reader.setEnd, hb.offFile, hb.offBlock, ktx, hmod']
+        · simp [byteStep, Reader.setB, Hts.Model.Bgzf.Reader.setEnd, hb.txOffset, hb.offFile, hb.offBlock]
+        · have hsm : (C1.heap id).data.length < 65536 := by rw [kdata, nat8_length]; exact klen
+          have e : (byteStep C1 id).chunkEnd = ({ C1.heap id with pos := (C1.heap id).pos + 1, offBlock := ((C1.heap id).offBlock + 1) % 65536, used := true } : RBlk).txOffset := rfl
+          rw [e, txOffset_small ({ C1.heap id with pos := (C1.heap id).pos + 1, offBlock := ((C1.heap id).offBlock + 1) % 65536, used := true } : RBlk) hsm]
+          simp [Hts.Model.Bgzf.Reader.setEnd, hb.offFile, hb.offBlock, ktx, hmod']
 
 /-- the state `seekFin` leaves -/
 def seekStep (C : Reader σ) (id : Nat) (file : Int) (blk : Nat) : Reader σ :=
